@@ -4,6 +4,7 @@ import (
 	"bytes"
 	"encoding/hex"
 	"fmt"
+	"github.com/hashicorp/go-hclog"
 	"strings"
 	"testing"
 	"time"
@@ -383,13 +384,16 @@ type c02E2ECase struct {
 	Pre   []ReqSpec       `json:"pre"`
 	Canon int             `json:"canon"`
 	Muts  []wire.Mutation `json:"muts"`
+	// LogLevel of the server's logger: "" (error), "debug", "trace" - gldap's request reading has
+	// code that only runs when the logger is at debug level
+	LogLevel string `json:"log_level,omitempty"`
 }
 
 func TestC02E2E(t *testing.T) {
 	canon, trees, _ := c02Setup()
 	lab.Prop[c02E2ECase]{
 		ID: "C02", Part: "e2e",
-		Rule: "rapid: 0..3 well-formed requests followed by a single/double-point mutant of a canonical request, sent over TCP to a live server with panic recovery ON; oracle: no 'Caught panic' record in the captured server log and the server still serves a fresh connection; non-trivial = asn1-ber parses the mutant; distinct by hash of the bytes",
+		Rule: "rapid: 0..3 well-formed requests followed by a single/double-point mutant of a canonical request, sent over TCP to a live server with panic recovery ON whose logger is at error, debug or trace level (debug-only code in the read path); oracle: no 'Caught panic' record in the captured server log and the server still serves a fresh connection; non-trivial = asn1-ber parses the mutant; distinct by hash of the bytes",
 		Gen: func(t *rapid.T) c02E2ECase {
 			c := c02E2ECase{Canon: rapid.IntRange(0, len(trees)-1).Draw(t, "canon")}
 			c.Pre = rapid.SliceOfN(genReq("", false), 0, 3).Draw(t, "pre")
@@ -407,6 +411,7 @@ func TestC02E2E(t *testing.T) {
 					}
 				}
 			}
+			c.LogLevel = rapid.SampledFrom([]string{"", "debug", "debug", "trace"}).Draw(t, "loglevel")
 			return c
 		},
 		Exec: func(c c02E2ECase, st *lab.Stats) *lab.Fail {
@@ -423,7 +428,7 @@ func TestC02E2E(t *testing.T) {
 			if len(b) > 64<<10 {
 				return nil
 			}
-			st.Case(berParses(b), b, "op="+canon[c.Canon].Kind, fmt.Sprintf("points=%d", len(c.Muts)))
+			st.Case(berParses(b), append(append([]byte{}, b...), c.LogLevel...), "op="+canon[c.Canon].Kind, fmt.Sprintf("points=%d", len(c.Muts)), "loglevel="+c.LogLevel)
 			st.Sample(c)
 			mux, _ := gldap.NewMux()
 			_ = mux.DefaultRoute(func(w *gldap.ResponseWriter, r *gldap.Request) {
@@ -431,7 +436,14 @@ func TestC02E2E(t *testing.T) {
 				_ = w.Write(r.NewResponse(gldap.WithResponseCode(0)))
 			})
 			closed := make(chan int, 8)
-			srv, err := lab.StartServer(mux, lab.ServerOpts{OnClose: func(id int) { closed <- id }})
+			so := lab.ServerOpts{OnClose: func(id int) { closed <- id }}
+			switch c.LogLevel {
+			case "debug":
+				so.LogLevel = hclog.Debug
+			case "trace":
+				so.LogLevel = hclog.Trace
+			}
+			srv, err := lab.StartServer(mux, so)
 			if err != nil {
 				st.Inconclusive(err.Error())
 				return nil
